@@ -60,8 +60,8 @@ class Parameter:
 
     @value.setter
     def value(self, val):
+        self._enforcers.enforce(val)
         self._value = val
-        self.validate()
 
     def validate(self):
         """Validates data against the pool of enforcers."""
